@@ -8,7 +8,7 @@ On break: harness `oracle` evaluates the property's clauses directly on the real
 """
 import os
 
-THEOREMS = ["IstioModel.C04.Theorems", "IstioModel.C04.ProtocolTheorems"]
+THEOREMS = ["IstioModel.C04.Theorems", "IstioModel.C04.ProtocolTheorems", "IstioModel.C04.DeltaTraceTheorems"]
 
 
 def oracle(ctx, stream, case_lines, rep):
